@@ -1260,3 +1260,10 @@ package engine
 //@   recovers makelen
 //@   modifies heap
 //@   ensures[length] err == nil ==> len(result0) == n
+
+//@ ---------------------------------------------------------------- package-level state shared by all interpreters (C14)
+//@ global atomTable guarded-by
+//@ global varCounter atomic except lastVariable
+//@ global memFree test-hook
+//@ global openFile test-hook
+//@ global osExit test-hook
